@@ -66,6 +66,11 @@ package file
 //@   ensures !held(recLock) && !rheld(recLock)
 //@   ensures[C10:table-untouched] StaticRecords == old(StaticRecords)
 //@   ensures[C10:no-ia-na-no-address] (ret0 != nil && oneiana6(inner6(req).Options) == nil) ==> (optn6(resp.(*dhcpv6.Message)) == old(optn6(resp.(*dhcpv6.Message))))
+//@   ensures[C10:unlisted-client-gets-no-address] (ret0 != nil && (!mac6_ok(req) || !has(StaticRecords, hwstr(mac6(req))))) ==> (optn6(resp.(*dhcpv6.Message)) == old(optn6(resp.(*dhcpv6.Message))))
+//@   ensures[C10:listed-client-gets-its-address] (ret0 != nil && oneiana6(inner6(req).Options) != nil && mac6_ok(req) && has(StaticRecords, hwstr(mac6(req)))) ==> \
+//@       (optn6(resp.(*dhcpv6.Message))[3] == old(optn6(resp.(*dhcpv6.Message))[3]) + 1 && typeis(optlast6(resp.(*dhcpv6.Message))[3], *dhcpv6.OptIANA) && \
+//@        len(optlast6(resp.(*dhcpv6.Message))[3].(*dhcpv6.OptIANA).Options.Options) == 1 && typeis(optlast6(resp.(*dhcpv6.Message))[3].(*dhcpv6.OptIANA).Options.Options[0], *dhcpv6.OptIAAddress) && \
+//@        optlast6(resp.(*dhcpv6.Message))[3].(*dhcpv6.OptIANA).Options.Options[0].(*dhcpv6.OptIAAddress).IPv6Addr == StaticRecords[hwstr(mac6(req))])
 
 //@ func setupFile
 //@   requires !held(recLock) && !rheld(recLock)
